@@ -139,9 +139,12 @@ def run(ck):
                     continue
                 if mt.get("src_regex") and not re.search(mt["src_regex"], unq(s)):
                     continue      # decided on the case: the source text has the shape the finding names
-                if re.fullmatch(mt.get("kind", "$^").strip("^$") if mt.get("kind", "").startswith("^") else re.escape(mt.get("kind", "")), kind) \
-                        and re.search(mt.get("knob_regex", ".*"), knob) and re.search(mt.get("class_regex", ".*"), cls):
-                    fid = fid or k["id"]
+                for alt in [mt] + [a for a in mt.get("alternatives", []) if a.get("kind") != "pipeline-constant-route-differs"]:
+                    akind = alt.get("kind", mt.get("kind", ""))
+                    if re.fullmatch(akind.strip("^$") if akind.startswith("^") else re.escape(akind), kind) \
+                            and re.search(alt.get("knob_regex", mt.get("knob_regex", ".*")), knob) \
+                            and re.search(alt.get("class_regex", mt.get("class_regex", ".*")), cls):
+                        fid = fid or k["id"]
             key = (kind, knob, cls)
             if fid is None and key in reported:
                 continue
